@@ -403,7 +403,7 @@ func unitCaps(r *lib.Run, px *proxy.Proxy, n int, cc capCase, queue string) {
 		} else {
 			_ = fx.PlayFlush()
 		}
-		u.report("unit-"+queue+"-cap-"+cc.Name, desc, backend.ids(), map[string]bool{"early": true})
+		u.report("unit-"+queue+"-cap", desc, backend.ids(), map[string]bool{"early": true})
 		r.Count("unit:cap:"+queue+":"+cc.Name+":all_delivered_no_disconnect", 1)
 	}
 }
